@@ -154,6 +154,8 @@ FLAVOURS = {
     'shim': dict(cxx='g++', flags='-O2 -DNDEBUG -DVSHIM', libs='-lboost_timer -lpthread', shim=True),
     'tsan': dict(cxx='g++', flags='-O1 -g -fno-omit-frame-pointer -fsanitize=thread -DVSHIM', libs='-lboost_timer -lpthread', shim=True),
     'mpi': dict(cxx='mpicxx', flags='-O2 -DNDEBUG', libs='-ltbb -lboost_mpi -lboost_serialization -lboost_timer -lpthread', shim=False),
+    'mpiasan': dict(cxx='mpicxx', flags='-O1 -g -fno-omit-frame-pointer -fsanitize=address,undefined -fno-sanitize-recover=all -D_GLIBCXX_ASSERTIONS',
+                    libs='-ltbb -lboost_mpi -lboost_serialization -lboost_timer -lpthread', shim=False),
     'valgrind': dict(cxx='g++', flags='-O1 -g -DNDEBUG', libs='-ltbb -lboost_timer -lpthread', shim=False),
     'cov': dict(cxx='g++', flags='-O0 -g --coverage -DNDEBUG', libs='-ltbb -lboost_timer -lpthread', shim=False),
 }
@@ -276,7 +278,10 @@ class Agg:
     def merge_summary(self, d):
         for k, v in d.items():
             if isinstance(v, (int, float)) and not isinstance(v, bool):
-                self.summary[k] += v
+                if k.endswith('_max'):
+                    self.summary[k] = max(self.summary.get(k, 0), v)
+                else:
+                    self.summary[k] += v
             else:
                 self.summary_other.setdefault(k, v)
 
